@@ -80,8 +80,31 @@ def run(tier, res, replay=None):
         rng, {'U': U}, [(r_, p_, 'U') for (r_, p_) in p7],
         [flow_for(U, 0.1) * f for f in (1, .9, .8, 1.1, .7, 1.2, .6)],
         gap_model='flow', bypass_fraction=0.03)))
+    # wall heating in multi-duct assemblies with constant properties: the
+    # heat the coolant receives through the walls is the heat deposited in
+    # them minus what leaves the outer surface (nothing, when adiabatic), so
+    # the whole-assembly clauses are judged here too
+    from harness.scenarios import bundle_type
+    whole = {}
+    for nm, nd, gm in (('dd-wallheat-adiabatic', 2, 'none'),
+                       ('dd-wallheat-flowgap', 2, 'flow'),
+                       ('d3-wallheat-adiabatic', 3, 'none')):
+        t_ = bundle_type(3 if nd == 2 else 2, nd=nd,
+                         wall=[0.002, 0.004, 0.003][:nd],
+                         bypass_gap_flow_fraction=0.08)
+        c = make_core(rng, {'a1': t_}, [(1, 1, 'a1')], [flow_for(t_)],
+                      gap_model=gm,
+                      bypass_fraction=(0.05 if gm != 'none' else 0.0),
+                      comps=('pins', 'duct', 'cool'), power_order=1)
+        # most of the power in the duct walls
+        for p_ in c['power'].values():
+            p_['duct'] = [[[8.0 * x for x in co] for co in cell]
+                          for cell in p_['duct']]
+        lab.append((nm, c))
+        whole[nm] = ('AssemblyBalance', 'DuctWallsStoreNoHeat')
     pairs = lag_pairs(rng, tier)
-    results = marchcheck.run_cases(lab + pairs, res, C01_CLAUSES)
+    results = marchcheck.run_cases(lab + pairs, res, C01_CLAUSES,
+                                   extra=whole)
     # ---- lag class: sweep residual shrinks linearly with the step
     rd = {tr['label']: tr for tr, v, l, cl in results}
     if 'lag-dz' in rd and 'lag-dz2' in rd:
